@@ -31,9 +31,10 @@ def main(run: Run):
     thorough = run.tier == "thorough"
     opts = OPTS_ALL if thorough else OPTS_QUICK
     # 1. design level: exhaustive pools, mechanism => property layer
+    # sized from measured state counts (DESIGN.md 0.6): quick about 40 s, thorough about 10 min idle
     pools = [("med", o) for o in (["000", "100", "001"] if thorough else ["000"])] + \
             [("attr", o) for o in (["000", "010"] if thorough else ["000"])] + \
-            [("tie", o) for o in (["000", "001"] if thorough else ["000"])]
+            [("tie", o) for o in (["000", "001", "100"] if thorough else ["000"])]
     for pool, o in pools:
         cfg = "MCBestPath_%s_%s.cfg" % (pool, o)
         medvals = "MedValsFull" if thorough and pool == "med" and o == "000" else "MedValsTwo"
@@ -50,8 +51,8 @@ INVARIANTS
   OneRoutePerSource
   D_C03_BestUntainted
   D_C03_TopTie
-""" % (o, pool, medvals, "{TRUE, FALSE}" if thorough else "{FALSE}"))
-        res = v.tlc(run.sc, "MCBestPath", cfg, timeout=1500, coverage=thorough)
+""" % (o, pool, medvals, "{TRUE, FALSE}" if (thorough and pool == "attr" and o == "010") else "{FALSE}"))
+        res = v.tlc(run.sc, "MCBestPath", cfg, timeout=3600, coverage=False)
         run.design(res, "MCBestPath %s opt=%s" % (pool, o))
 
     # 2. behaviours -> real code -> traces, one batch per option setting
